@@ -384,6 +384,26 @@ func runC06(a vh.Args, o *vh.Oracle, r *vh.Result) error {
 		if c.Level == "cli" {
 			return c06CLIReplay(a, r, &c)
 		}
+		if c.Level == "cli-tarinput" {
+			var tc c06TarInCase
+			if err := readJSON(a.Replay, &tc); err != nil {
+				return err
+			}
+			return c06TarInCheck(a, r, &tc)
+		}
+		if c.Level == "library-stall" {
+			var sc c06StallCase
+			if err := readJSON(a.Replay, &sc); err != nil {
+				return err
+			}
+			for i := 0; i < 10; i++ {
+				x := sc
+				if err := c06StallCheck(a, r, &x); err != nil {
+					return err
+				}
+			}
+			return nil
+		}
 		if c.Level == "library-cancel" {
 			var cc c06CancelCase
 			if err := readJSON(a.Replay, &cc); err != nil {
@@ -512,6 +532,12 @@ func runC06(a vh.Args, o *vh.Oracle, r *vh.Result) error {
 		return err
 	}
 	if err := c06Cancels(a, r, rng); err != nil {
+		return err
+	}
+	if err := c06Stalls(a, r, rng); err != nil {
+		return err
+	}
+	if err := c06TarInputs(a, r, rng); err != nil {
 		return err
 	}
 	return c06CLI(a, r, rng)
